@@ -77,6 +77,11 @@ func C10(c *Ctx) int {
 		return 2
 	}
 	byName := map[string]*GenItem{}
+	type deferredRun struct {
+		it *GenItem
+		h  Harness
+	}
+	var deferred []deferredRun
 	for _, it := range items {
 		if !(it.ExitOK && it.Files) {
 			o.Inconclusive = append(o.Inconclusive, "stub item "+it.Name+" was not generated")
@@ -105,6 +110,11 @@ func C10(c *Ctx) int {
 			}
 		}
 		for _, h := range hs {
+			if h.Params["ranges"] > 3 {
+				// beyond the quick bounds: run at the end with what is left of the budget
+				deferred = append(deferred, deferredRun{it, h})
+				continue
+			}
 			r, err := c.RunGenHarness(gprog, it, h)
 			if err != nil {
 				o.Broken = append(o.Broken, err.Error())
@@ -158,7 +168,17 @@ func C10(c *Ctx) int {
 	c.parserTables(o, byName)
 	c.ValidateSamples(o, byName, 4)
 	if c.Thorough() {
-		// the larger table shapes last: they use whatever is left of the budget
+		// the larger kernels and table shapes last: they use whatever is left of the budget
+		for _, d := range deferred {
+			r, err := c.RunGenHarness(gprog, d.it, d.h)
+			if err != nil {
+				o.Broken = append(o.Broken, err.Error())
+				continue
+			}
+			o.Add(r)
+			byName[r.H.Name] = d.it
+			c.HandleGenCex(o, d.it, r)
+		}
 		runShapes([]tp{{3, 2, 0}, {3, 2, 5}, {2, 3, 1}, {4, 1, 10}})
 	}
 	o.Assumptions = []string{"row invariant assumed by PushRuneUnit/FindUnit (sorted, disjoint, B<=E; pairs behind an in-range index) is what TableRoundTrip and the per-item differentials (C01, C02) establish for emitted tables",
